@@ -1490,3 +1490,217 @@ Qed.
 End ClosedRound.
 
 End Closed.
+
+(* ------------------------------------------------------------------ *)
+(* the closed window, stated on the fields of the model *)
+
+(* the start: a window (window_start) whose members have all voted for a member, and
+   outsiders that run pre-vote, are not above the window's term, are not leaders, have
+   no grant of a member on record, nothing queued, and a non-empty configuration of
+   which the window members are a quorum; the pool of messages in flight is empty *)
+Definition closed_start (L : raft) (Fs Os : list raft) : Prop :=
+  window_start L Fs /\
+  In (r_vote L) (r_id L :: map r_id Fs) /\
+  Forall (fun F => In (r_vote F) (r_id L :: map r_id Fs)) Fs /\
+  Forall (fun O =>
+    ~ In (r_id O) (r_id L :: map r_id Fs) /\ r_pre_vote O = true /\ r_term O <= r_term L /\
+    r_state O <> Leader /\ confq (map r_id Fs) (r_id L) O /\
+    votes_ok (map r_id Fs) (r_id L) O /\ r_msgs O = []) Os.
+
+Definition closed_sched (L : raft) (Fs Os : list raft)
+           (sched : list (list oact * list (N * msg))) : Prop :=
+  sched_ok (map r_id Fs) (r_id L) sched (L, Fs, Os, []).
+
+(* THE CLOSED WINDOW.  No hypothesis on the outsiders' messages: they are whatever this
+   library makes the outsiders emit.  For any number of rounds and any schedule, if no
+   panic occurs: L is still the leader of its term, every member of Fs still its follower
+   with the same vote, inside its lease; and no outsider ever exceeded the window's term
+   or became leader *)
+Theorem closed_window L Fs Os sched L' Fs' Os' pool' :
+  closed_start L Fs Os -> closed_sched L Fs Os sched ->
+  closed_rounds sched (L, Fs, Os, []) = Ok (L', Fs', Os', pool') ->
+  r_state L' = Leader /\ r_term L' = r_term L /\ r_leader_id L' = r_id L /\ r_id L' = r_id L /\
+  Forall2 (fun F F' =>
+    r_id F' = r_id F /\ r_vote F' = r_vote F /\ r_state F' = Follower /\
+    r_term F' = r_term L /\ r_leader_id F' = r_id L /\ r_check_quorum F' = true /\
+    r_election_elapsed F' < r_election_timeout F') Fs Fs' /\
+  Forall (fun O' => r_term O' <= r_term L /\ r_state O' <> Leader /\ r_pre_vote O' = true /\
+                    ~ In (r_id O') (r_id L :: map r_id Fs)) Os' /\
+  Forall (PC (map r_id Fs) (r_id L) (r_term L)) pool'.
+Proof.
+  intros (Hs & HvL & HvF & HOs) Hsched H.
+  pose proof Hs as (S1 & S2 & S3 & S4 & S5 & _ & _ & _ & _ & _ & _ & _ & S13 & _ & S15).
+  assert (HC : CInv (map r_id Fs) (r_id L) (r_term L) (r_heartbeat_timeout L) (r_election_timeout L)
+                 (t_conf (r_prs L)) (map r_vote Fs) (L, Fs, Os, [])).
+  { split; [|split; [|constructor]].
+    - split; [apply window_start_WInv; exact Hs|]. split; [exact HvL|].
+      split; [apply Forall_forall; intros v Hv; apply in_map_iff in Hv;
+              destruct Hv as (F & <- & HF); rewrite Forall_forall in HvF; apply HvF, HF|].
+      split; [rewrite S13; constructor|].
+      eapply Forall_impl; [|exact S15]. intros F (_ & _ & _ & _ & _ & _ & E & _). rewrite E. constructor.
+    - cbn [fst]. eapply Forall_impl; [|exact HOs].
+      intros O (O1 & O2 & O3 & O4 & O5 & O6 & O7). split; [exact O1|].
+      unfold OInv. rewrite O7. repeat split; try assumption; try apply O5. constructor. }
+  pose proof (closed_rounds_inv (map r_id Fs) (r_id L) (r_term L) S1 S2 (r_heartbeat_timeout L)
+                (r_election_timeout L) (t_conf (r_prs L)) S3 S4 S5 (map r_vote Fs) sched _ _ HC Hsched H)
+    as [((HL & Hid & Hv & HF) & _) [HO HP]].
+  destruct HL as (I1 & I2 & I3 & I4 & _).
+  repeat (split; [assumption|]).
+  split; [|split; [|exact HP]].
+  - pose proof (maps_Forall2 r_id r_vote Fs Fs' Hid Hv) as G.
+    clear -G HF. induction G as [|F F' Fs0 Fs0' (A & B) Hrest IH]; constructor.
+    + apply Forall_cons_iff in HF. destruct HF as [(F1 & F2 & F3 & F4 & F5 & F6 & F7 & F8 & F9) _].
+      repeat (split; [assumption|]). lia.
+    + apply IH. apply Forall_cons_iff in HF. apply HF.
+  - cbn [fst] in HO. eapply Forall_impl; [|exact HO].
+    intros O' (N1 & (J1 & J2 & J3 & J4 & _)). auto.
+Qed.
+
+(* ------------------------------------------------------------------ *)
+(* definitions used in the pinned statements, unfolded *)
+
+Lemma def_PC ids l t x :
+  PC ids l t x <->
+  (m_term x <= t \/ exempt x = true) /\
+  netmsg (m_type x) /\
+  (vresp x -> m_reject x = false -> ~ In (m_from x) (l :: ids)) /\
+  (vreq x -> ~ In (m_from x) (l :: ids) /\ list_eqb (m_context x) CAMPAIGN_TRANSFER = false) /\
+  (~ In (m_from x) (l :: ids) -> In (m_to x) (l :: ids) -> adv_ok ids l t x).
+Proof. reflexivity. Qed.
+
+Lemma def_vresp x :
+  vresp x <-> m_type x = MsgRequestVoteResponse \/ m_type x = MsgRequestPreVoteResponse.
+Proof. reflexivity. Qed.
+
+Lemma def_vreq x : vreq x <-> m_type x = MsgRequestVote \/ m_type x = MsgRequestPreVote.
+Proof. reflexivity. Qed.
+
+Lemma def_votes_ok ids l r :
+  votes_ok ids l r <->
+  forall id, Quorum.assoc (t_votes (r_prs r)) id = Some true -> ~ In id (l :: ids).
+Proof. reflexivity. Qed.
+
+Lemma def_confq ids l r :
+  confq ids l r <->
+  incoming (conf_of r) <> [] /\
+  Quorum.has_quorum (incoming (conf_of r)) (outgoing (conf_of r)) (l :: ids) = true.
+Proof. reflexivity. Qed.
+
+Lemma def_snapq ids l s :
+  snapq ids l s <->
+  forall c' i, ConfChange.restore empty_tracker (s_cs s) = ROk (c', i) ->
+    incoming c' <> [] /\ Quorum.has_quorum (incoming c') (outgoing c') (l :: ids) = true.
+Proof. reflexivity. Qed.
+
+Lemma def_OInv ids l t o r :
+  OInv ids l t o r <->
+  r_pre_vote r = true /\ r_id r = o /\ r_term r <= t /\ r_state r <> Leader /\
+  confq ids l r /\ votes_ok ids l r /\ Forall (PC ids l t) (r_msgs r).
+Proof. reflexivity. Qed.
+
+Lemma def_oact_apply st a :
+  oact_apply st a =
+  match a with
+  | OStep i m =>
+      match nth_error (fst st) i with
+      | None => Ok st
+      | Some o1 => x <- step o1 m ;;
+                   Ok (upd (fst st) i ((fst x) <| r_msgs := [] |>), snd st ++ r_msgs (fst x))
+      end
+  | OTick i =>
+      match nth_error (fst st) i with
+      | None => Ok st
+      | Some o1 => x <- tick o1 ;;
+                   Ok (upd (fst st) i ((fst x) <| r_msgs := [] |>), snd st ++ r_msgs (fst x))
+      end
+  | ORestart i r =>
+      match nth_error (fst st) i with
+      | None => Ok st
+      | Some o1 => Ok (upd (fst st) i r, snd st)
+      end
+  end.
+Proof. reflexivity. Qed.
+
+Lemma def_oacts_apply st acts :
+  oacts_apply st acts = match acts with
+                        | [] => Ok st
+                        | a :: rest => st' <- oact_apply st a ;; oacts_apply st' rest
+                        end.
+Proof. destruct acts; reflexivity. Qed.
+
+Lemma def_restart_ok ids l O r :
+  restart_ok ids l O r <->
+  r_id r = r_id O /\ r_pre_vote r = true /\ r_term r <= r_term O /\ r_state r <> Leader /\
+  confq ids l r /\ t_votes (r_prs r) = [] /\ r_msgs r = [].
+Proof. reflexivity. Qed.
+
+Lemma def_oact_ok ids l st a :
+  oact_ok ids l st a <->
+  match a with
+  | OStep i m => In m (snd st) /\ snapq ids l (m_snapshot m)
+  | OTick i => True
+  | ORestart i r => forall O, nth_error (fst st) i = Some O -> restart_ok ids l O r
+  end.
+Proof. destruct a; reflexivity. Qed.
+
+Lemma def_oacts_ok ids l st acts :
+  oacts_ok ids l st acts <->
+  match acts with
+  | [] => True
+  | a :: rest => oact_ok ids l st a /\
+                 forall st', oact_apply st a = Ok st' -> oacts_ok ids l st' rest
+  end.
+Proof. destruct acts; reflexivity. Qed.
+
+Lemma def_adv_from_pool ids l pool adv :
+  adv_from_pool ids l pool adv <->
+  Forall (fun tm => In (snd tm) pool /\ ~ In (m_from (snd tm)) (l :: ids) /\
+                    In (m_to (snd tm)) (l :: ids) /\ fst tm = m_to (snd tm)) adv.
+Proof. reflexivity. Qed.
+
+Lemma def_closed_round acts adv L Fs Os pool :
+  closed_round acts adv (L, Fs, Os, pool) =
+  (op1 <- oacts_apply (Os, pool) acts ;;
+   ma <- deliver_all (L, Fs) adv ;;
+   mb <- star_round (fst ma) (snd ma) ;;
+   Ok (fst mb, snd mb, fst op1, snd op1 ++ r_msgs (fst ma) ++ concat (map r_msgs (snd ma)))).
+Proof. reflexivity. Qed.
+
+Lemma def_round_ok ids l acts adv L Fs Os pool :
+  round_ok ids l acts adv (L, Fs, Os, pool) <->
+  oacts_ok ids l (Os, pool) acts /\
+  forall op1, oacts_apply (Os, pool) acts = Ok op1 -> adv_from_pool ids l (snd op1) adv.
+Proof. reflexivity. Qed.
+
+Lemma def_closed_rounds sched st :
+  closed_rounds sched st =
+  match sched with
+  | [] => Ok st
+  | (acts, adv) :: rest => st' <- closed_round acts adv st ;; closed_rounds rest st'
+  end.
+Proof. destruct sched as [|[a b] rest]; reflexivity. Qed.
+
+Lemma def_sched_ok ids l sched st :
+  sched_ok ids l sched st <->
+  match sched with
+  | [] => True
+  | (acts, adv) :: rest =>
+      round_ok ids l acts adv st /\
+      forall st', closed_round acts adv st = Ok st' -> sched_ok ids l rest st'
+  end.
+Proof. destruct sched as [|[a b] rest]; reflexivity. Qed.
+
+Lemma def_closed_start L Fs Os :
+  closed_start L Fs Os <->
+  window_start L Fs /\
+  In (r_vote L) (r_id L :: map r_id Fs) /\
+  Forall (fun F => In (r_vote F) (r_id L :: map r_id Fs)) Fs /\
+  Forall (fun O =>
+    ~ In (r_id O) (r_id L :: map r_id Fs) /\ r_pre_vote O = true /\ r_term O <= r_term L /\
+    r_state O <> Leader /\ confq (map r_id Fs) (r_id L) O /\
+    votes_ok (map r_id Fs) (r_id L) O /\ r_msgs O = []) Os.
+Proof. reflexivity. Qed.
+
+Lemma def_closed_sched L Fs Os sched :
+  closed_sched L Fs Os sched <-> sched_ok (map r_id Fs) (r_id L) sched (L, Fs, Os, []).
+Proof. reflexivity. Qed.
